@@ -54,6 +54,11 @@ add("C06", "exploration",
     "Trusts the allocator shim (every alloc/realloc/alloc_zeroed on the walking thread is counted) and the nightly build-std machinery for the no-std/no-alloc dependency clause.",
     "property-based testing (proptest) with an allocation-counting monitor; exhaustive configuration enumeration with the compiler as oracle", "DESIGN.md §5 C06")
 
+add("C16", "exploration",
+    "Seeded proptest search over adversarial link structures built on purpose (SysV chain cycles of every length, GNU chains without stop bit, version records with zero/self/overlapping/out-of-range links and absurd counts, partial trailing records) and over the corrupted-file domain with every iterator driven to bound+1 items; oracle = item-count bounds (one item per input byte, at most the declared count) plus a per-case watchdog (15 s / 60 s) whose expiry is the violation. The thorough tier adds a libFuzzer campaign with -timeout.",
+    "Liveness-flavoured property decided by a watchdog: a hang is detected, termination is not proved; limits sit far above the worst legitimate walk on the generated sizes.",
+    "property-based testing (proptest) with item-count invariants and a hang watchdog; coverage-guided fuzzing (libFuzzer) in the thorough tier", "DESIGN.md §5 C16")
+
 NOT_YET = {}
 allp = [json.loads(l)["id"] for l in open("properties.jsonl")]
 checks = []
